@@ -43,10 +43,12 @@ pub fn gen_block_ret(r: &mut Rng, depth: usize, counter: &mut usize, budget: &mu
         *budget -= 1;
         *counter += 1;
         let id = *counter;
-        let kind = if allow_ret && r.chance(1, 6) { 9 } else if depth >= 3 { r.below(2) } else { r.below(6) };
+        let kind = if allow_ret && r.chance(1, 6) { 9 } else if allow_ret && r.chance(1, 8) { 8 } else if depth >= 3 { r.below(2) } else { r.below(6) };
         let sp: Vec<usize> = (0..6).map(|_| r.below(5)).collect();
         match kind {
             9 => out.push(json!({"k": "ret", "val": if r.chance(3, 4) { json!(format!("r{}", id)) } else { Value::Null }})),
+            // (function bodies only) a nested call of another function, as an output-assigning statement
+            8 => out.push(json!({"k": "callg", "id": id})),
             0 => out.push(json!({"k": "mark", "id": id})),
             1 => out.push(json!({"k": "assign", "var": format!("b{}", r.below(3)), "val": r.chance(1, 2)})),
             2 | 3 => {
@@ -144,6 +146,10 @@ pub fn render(block: &Vec<Value>, out: &mut Vec<String>) {
                     render(e, out);
                 }
                 out.push(ENDIF_SP[sp[5] % 5].to_string());
+            }
+            "callg" => {
+                let id = s["id"].as_u64().unwrap();
+                out.push(format!("gc{} = g {}", id, id));
             }
             "while" => {
                 let id = s["id"].as_u64().unwrap();
@@ -245,6 +251,15 @@ pub fn interp_ret(block: &Vec<Value>, vars: &mut BTreeMap<String, String>, steps
             }
             "assign" => {
                 vars.insert(s["var"].as_str().unwrap().to_string(), s["val"].to_string());
+            }
+            "callg" => {
+                // g is not scoped: its argument is bound in the shared variables, it leaves a mark and returns a value
+                let id = s["id"].as_u64().unwrap();
+                vars.remove(&format!("gc{}", id));
+                vars.insert("1".to_string(), id.to_string());
+                let t = vars.get("trace").cloned().unwrap_or_default();
+                vars.insert("trace".to_string(), format!("{} g:{}", t, id));
+                vars.insert(format!("gc{}", id), format!("gv{}", id));
             }
             "if" => {
                 let conds = s["conds"].as_array().unwrap();
